@@ -227,7 +227,8 @@ def run_property(mod, tier: str, seed: int, replay: str | None = None) -> int:
         hit = None
         for a in range(0, len(extra), B):
             f2 = evaluate(mod, extra[a:a + B], Result(), with_model=False)
-            f2 = [f for f in f2 if f[1] == "oracle"]
+            f2 = [f for f in f2 if f[1] == "oracle" and not
+                  [k for k in known if k.get("signature") == f[2][0].split(":")[0] and mod.matches_known(k, f[0])]]
             if f2:
                 hit = f2[0]
                 break
